@@ -96,10 +96,15 @@ fn foreign_key(kt: KeyType, rng: &mut Rng) -> Result<(KeyPair, String), String> 
     let mut label = String::new();
     let pk = match kt {
         KeyType::Rsa2048 | KeyType::Rsa4096 => {
-            let bits = if kt == KeyType::Rsa2048 { 2048 } else { 4096 };
+            let mut bits = if kt == KeyType::Rsa2048 { 2048 } else { 4096 };
+            // a modulus that fills all its octets without using the top bits (2041..2047 bits, 4089..4095 bits) is still a key of that size
+            if rng.below(2) == 0 {
+                bits -= [1u32, 1, 3, 7][rng.below(4) as usize];
+                label = format!("{bits}-bit modulus ");
+            }
             let exps = ["3", "5", "17", "257", "65537", "65539", "16777217", "4294967297"];
             let e = exps[rng.below(exps.len() as u64) as usize];
-            label = format!("e={e}");
+            label += &format!("e={e}");
             let rsa = Rsa::generate_with_e(bits, &*BigNum::from_dec_str(e).map_err(es)?).map_err(es)?;
             PKey::from_rsa(rsa).map_err(es)?
         }
